@@ -2,6 +2,7 @@ package sym
 
 import (
 	"fmt"
+	"go/types"
 	"hash/crc32"
 
 	"golang.org/x/tools/go/ssa"
@@ -124,4 +125,94 @@ func registerCRC(reg func(string, intrinsic)) {
 		out := append(append([]*Term{}, prefix...), st.Extract(s, 31, 24), st.Extract(s, 23, 16), st.Extract(s, 15, 8), st.Extract(s, 7, 0))
 		return in.bytesToSlice(out)
 	})
+}
+
+// Local generators (rand.New(rand.NewSource(seed))): a deterministic chain of
+// uninterpreted functions of the seed — two generators built from the same
+// seed produce the same sequence, whatever else runs in the process. This is
+// the contrast with the process-global source above, whose draws are arbitrary
+// because any other goroutine (treap priorities, p2p nonces, address manager)
+// may draw from or reseed it between two accesses.
+func registerLocalRand(reg func(string, intrinsic)) {
+	state := func(in *Interp, v Value) *Loc {
+		var p Ptr
+		switch x := v.(type) {
+		case Ptr:
+			p = x
+		case IfaceV:
+			p, _ = x.V.(Ptr)
+		}
+		if len(p.L) != 1 {
+			in.unsupported("math/rand generator value")
+		}
+		if in.randStates == nil {
+			in.randStates = map[*Loc]*Term{}
+		}
+		return p.L[0]
+	}
+	reg("math/rand.NewSource", func(in *Interp, fn *ssa.Function, a []Value) Value {
+		pkg := in.prog.ImportedPackage("math/rand")
+		t := pkg.Type("rngSource")
+		if t == nil {
+			in.unsupported("math/rand.rngSource not found")
+		}
+		l := &Loc{T: t.Type(), V: Opaque{Kind: "rngSource"}}
+		if in.randStates == nil {
+			in.randStates = map[*Loc]*Term{}
+		}
+		in.randStates[l] = in.st.UF("rand_seeded", BV(64), a[0].(*Term))
+		in.ex.noteStub("rand.New(rand.NewSource(seed)): deterministic uninterpreted-function chain of the seed (the generator algorithm itself is not encoded)")
+		return IfaceV{T: types.NewPointer(t.Type()), V: Ptr{L: []*Loc{l}}}
+	})
+	reg("math/rand.New", func(in *Interp, fn *ssa.Function, a []Value) Value {
+		src := state(in, a[0])
+		pkg := in.prog.ImportedPackage("math/rand")
+		t := pkg.Type("Rand")
+		l := &Loc{T: t.Type(), V: Opaque{Kind: "Rand"}}
+		s, ok := in.randStates[src]
+		if !ok {
+			in.unsupported("rand.New on an unmodelled Source")
+		}
+		in.randStates[l] = s
+		return Ptr{L: []*Loc{l}}
+	})
+	draw := func(in *Interp, l *Loc, w int) *Term {
+		s, ok := in.randStates[l]
+		if !ok {
+			in.unsupported("method on an unmodelled *rand.Rand")
+		}
+		v := in.st.UF(fmt.Sprintf("rand_out%d", w), BV(w), s)
+		in.randStates[l] = in.st.UF("rand_next", BV(64), s)
+		return v
+	}
+	nonneg := func(w int) intrinsic {
+		return func(in *Interp, fn *ssa.Function, a []Value) Value {
+			v := draw(in, state(in, a[0]), w)
+			in.addPC(in.st.Eq(in.st.Extract(v, w-1, w-1), in.st.Const(1, 0)))
+			return v
+		}
+	}
+	reg("(*math/rand.Rand).Int", nonneg(64))
+	reg("(*math/rand.Rand).Int63", nonneg(64))
+	reg("(*math/rand.Rand).Int31", nonneg(32))
+	bounded := func(w int, name string) intrinsic {
+		return func(in *Interp, fn *ssa.Function, a []Value) Value {
+			n := a[1].(*Term)
+			if in.fork2(in.st.SLe(n, in.st.Const(w, 0))) {
+				in.goPanic("invalid argument to " + name)
+			}
+			l := state(in, a[0])
+			s, ok := in.randStates[l]
+			if !ok {
+				in.unsupported("method on an unmodelled *rand.Rand")
+			}
+			v := in.st.UF(fmt.Sprintf("rand_outn%d", w), BV(w), s, n)
+			in.randStates[l] = in.st.UF("rand_next", BV(64), s)
+			in.addPC(in.st.ULt(v, n))
+			return v
+		}
+	}
+	reg("(*math/rand.Rand).Intn", bounded(64, "Intn"))
+	reg("(*math/rand.Rand).Int63n", bounded(64, "Int63n"))
+	reg("(*math/rand.Rand).Int31n", bounded(32, "Int31n"))
 }
